@@ -653,6 +653,7 @@ func (e *Encoder) calculateDataSizeWithContext(ctx context.Context, fit *proto.F
 	e.w = io.Discard
 
 	if err := e.encodeMessagesWithContext(ctx, fit.Messages); err != nil {
+		e.n, e.w = n, w // put the writer back: the encoder must not keep writing to io.Discard
 		return fmt.Errorf("calculate data size: %w", err)
 	}
 
